@@ -29,7 +29,8 @@ ASSUMPTIONS = [
     're-use of a DocTest object after a run that ended by a propagating exception is outside the quantifier (the harness takes a fresh object; counted as out_of_scope_observations)',
 ]
 
-SPECIAL = ['names', 'names', 'names', 'rebindG', 'rebindG', 'modglobal', 'modglobal', 'say', 'say', 'usename']
+SPECIAL = ['names', 'names', 'names', 'rebindG', 'rebindG', 'modglobal', 'modglobal', 'say', 'say', 'usename',
+           'defclass', 'useclass', 'modglobal', 'trysibling']
 TRAILERS = [[['+', 'SKIP', None]], [['+', 'REQUIRES', 'env:SIM_NOT_SET']], [['+', 'REQUIRES', '--sim-absent']],
             [['-', 'REPORT_UDIFF', None]], [['+', 'IGNORE_WANT', None]], [['-', 'ELLIPSIS', None]],
             [['-', 'NORMALIZE_WHITESPACE', None]], [['+', 'IGNORE_EXCEPTION_DETAIL', None]]]
@@ -48,6 +49,10 @@ def add_special_steps(rng, dt, pfx, modname):
         if form == 'usename':
             st['pts'] = []
             st['ref'] = rng.randint(0, 6)
+        if form in ('defclass', 'useclass'):
+            st['pts'] = []
+        if form == 'trysibling':
+            st['pts'] = ['%ss%d%s' % (pfx, base + j, c) for c in 'ab']
         if form == 'say':
             st['text'] = 'ok'
         pos = rng.randint(0, len(steps))
@@ -89,6 +94,7 @@ def generate(rng, tier):
             pfx = 'zz%d' % n
         n += 1
         add_special_steps(rng, dt, pfx, mod['name'])
+    world['extra_files'] = {'simsibling.py': 'VALUE = 7\n'}
     ids = gen.doctest_ids(world)
     ids = ids[:8]
     mods = [m['relpath'] for m in world['modules']]
@@ -125,7 +131,7 @@ def generate(rng, tier):
             f['exc'] = rng.choice(['ValueError', 'KeyError', 'SimError'])
             f['msg'] = 'fault ' + p['pid']
         elif kind == 'interrupt':
-            f['exc'] = rng.choice(['KeyboardInterrupt', 'SystemExit', 'SimBaseExc'])
+            f['exc'] = rng.choice(['KeyboardInterrupt', 'SystemExit', 'SimBaseExc', 'Failed'])
         elif kind == 'early_exit':
             f['exc'] = rng.choice(['ExitTestException', 'Skipped'])
         elif kind == 'warn_filters':
@@ -136,6 +142,24 @@ def generate(rng, tier):
                 # in the last statement of the doctest: nothing of this doctest runs afterwards
                 f['pid'] = pts[-1]['pid']
         plan.append(f)
+    if len(world['modules']) > 1 and rng.random() < 0.2:
+        # one module of the package cannot be imported (the same way at every attempt):
+        # its doctests fail before they start, the others must not notice
+        plan.append({'import': world['modules'][0]['name'], 'kind': 'raise',
+                     'exc': rng.choice(['ImportError', 'ValueError', 'RuntimeError'])})
+    if rng.random() < 0.15:
+        # one doctest turns warnings into errors, a later one calls code that warns
+        if len(execs) >= 2:
+            i = rng.randrange(len(execs) - 1)
+            j = rng.randrange(i + 1, len(execs))
+            for (dtid, k, opidx), kind in ((execs[i], 'warn_filters'), (execs[j], 'warn')):
+                pts = common.points_of(world, dtid)
+                if pts and (dtid, k) not in used:
+                    used.add((dtid, k))
+                    f = {'dt': dtid, 'k': k, 'pid': rng.choice(pts)['pid'], 'kind': kind}
+                    if kind == 'warn_filters':
+                        f['how'] = 'simplefilter'
+                    plan.append(f)
     # the E14 shape: the first output of a later execution of the same object is muted
     if rng.random() < 0.35:
         cand = [(d, k, o) for d, k, o in execs if k >= 1 and (d, k) not in used]
